@@ -305,7 +305,7 @@ def check_element(case):
     if not texts or texts[-1] is None:
         return Info(nontrivial=False, labels=["nothing-published"])
     t = texts[-1]
-    sent = case.get("pad", "") + t.strip()
+    sent = t.strip()  # (what the wire parser hands on: text values arrive stripped)
     try:
         want = refnum.parse(sent)
     except Exception:  # noqa - what the element publishes is judged by the other sub-checks
